@@ -348,6 +348,11 @@ def gen_program(rng, max_ops=10):
         prog["merged"].append(["mst_%d" % k, "slv_%d" % k])
     if rng.random() < 0.15:
         prog["merged"].append(rng.sample(PATCHES, 2))
+    if prog["merged"] and rng.random() < 0.35:
+        # declarations are a list: one slave under several masters, one master over several slaves, a pair stated twice
+        m0, s0 = rng.choice(prog["merged"])
+        extra = rng.choice([[rng.choice(PATCHES), s0], [m0, rng.choice(PATCHES)], [m0, s0]])
+        prog["merged"].insert(rng.randrange(len(prog["merged"]) + 1), extra)
     if rng.random() < 0.5:
         prog["default"] = [rng.choice(["defaultFaces", "rest"]), rng.choice(KINDS)]
     for lst in ("modify_pre", "modify_post"):
